@@ -11,6 +11,7 @@ import (
 	"github.com/pdok/texel/pointindex"
 	"github.com/pdok/texel/snap"
 	"github.com/pdok/texel/zzverif/vsrt"
+	"verif/engine/ev"
 	"verif/engine/lat"
 	"verif/engine/ref"
 )
@@ -121,6 +122,6 @@ func scopesC06(thorough bool) []Scope {
 
 func init() {
 	_ = os.Getenv
-	register(&Prop{ID: "C06", Scopes: scopesC06, Judge: judgeC06,
-		Rule: "every vertex sequence of the invalid scopes (walks over pixel centres incl. revisits up to length 12/14, all sequences with repeats on the half-pixel lattice, up to 3 rings incl. rings of 1-2 points) and the valid scopes is snapped by the real code built with a step counter in every loop body (mechanical instrumentation of the current sources); oracle: the call returns without panic within A*(n+2)^3 loop iterations, n = vertices x tile matrices, A frozen; every input counts as non-trivial"})
+	register(&Prop{ID: "C06", Scopes: scopesC06, Judge: judgeC06, Extras: []func(*ev.Run, int, int) scopeReport{realSweep("C06")},
+		Rule: "every vertex sequence of the invalid scopes (walks over pixel centres incl. revisits up to length 12/14, all sequences with repeats on the half-pixel lattice, up to 3 rings incl. rings of 1-2 points) and the valid scopes is snapped by the real code built with a step counter in every loop body (mechanical instrumentation of the current sources); oracle: the call returns without panic within A*(n+2)^3 loop iterations, n = vertices x tile matrices, A frozen; every input counts as non-trivial; plus the real-grid sweep: every accepted built-in set x every id x deepest id in {z, z+1, last} x 9 anchors x probe polygons inside the extent"})
 }
